@@ -228,7 +228,7 @@ def sanitizer_stages(run, rng, winners):
     if binary is None:
         run.inconc('ThreadSanitizer build failed: %s' % (err or '')[-300:])
         return
-    n_tsan = int(os.environ.get('VERIF_TSAN_TRIALS', '200'))
+    n_tsan = int(os.environ.get('VERIF_TSAN_TRIALS', '120'))
     tplans = []
     for i in range(n_tsan):
         focus = ['limit', 'hr', 'validators', 'comparator', 'mix', 'mix'][i % 6]
@@ -269,7 +269,7 @@ def sanitizer_stages(run, rng, winners):
 
 
 def check(run, replay_case=None):
-    n_trials = 320 if run.quick() else 6000
+    n_trials = 320 if run.quick() else 1600
     run.rule = ('fresh process per trial; N in {2,4,8,16} threads released by a spin barrier with 0-2 us jitter; each thread performs 1-3 first-time set/use operations on one '
                 'setting family (or a mix): allocation limit (values 0..usize::MAX), human-readable flag, the four validators, the comparator; history checked against a write-once '
                 'register; then peek hooks + behavioural probes (three rounds) and the uniformity sweep: declared lengths w-1, w, w+1 at every guard; distinct = (focus, N, winner '
@@ -287,7 +287,7 @@ def check(run, replay_case=None):
             focus = ['limit', 'limit', 'hr', 'validators', 'comparator', 'mix'][i % 6]
             plans.append(make_plan(rng, [2, 4, 8, 16][i % 4], focus))
             # the 512 MiB container-block probe at the default limit is affordable only now and then
-            plans[-1]['heavy'] = (i % 10 == 0) or not run.quick()
+            plans[-1]['heavy'] = (i % 10 == 0)
             foci.append(focus)
     jobs = [(run.workdir, i, p) for i, p in enumerate(plans)]
     with ThreadPoolExecutor(max_workers=12) as ex:
